@@ -38,7 +38,7 @@ META = {
     "design_ref": "7/C23",
     "shards": {"quick": 2, "thorough": 16},
     "budget_s": {"quick": 45, "thorough": 300},
-    "min_evals": {"quick": 2000, "thorough": 60000},
+    "min_evals": {"quick": 2000, "thorough": 40000},
     "deciding": ["route.symbolic", "route.numeric", "transform.apply", "edit.list", "edit.markers", "edit.apply"],
     "rule": "routing case = (pipeline of bound synthetic/real transforms, batch); distinct = fingerprint of both; non-trivial = at least two "
             "transforms, at least two input circuits and two different fan-outs occurring (uneven batch). Edit case = one history; non-trivial = "
@@ -812,9 +812,9 @@ def run(ctx):
 
     warnings.filterwarnings("ignore")
     sy = Synth(qp)
-    NR = ctx.n(1600, 160000)     # symbolic routing cases
-    NH = ctx.n(700, 80000)     # edit histories
-    NN = ctx.n(120, 8000)        # numeric routing cases
+    NR = ctx.n(1600, 24000)     # symbolic routing cases
+    NH = ctx.n(700, 12000)     # edit histories
+    NN = ctx.n(120, 1600)        # numeric routing cases
     plan = [("route", NR), ("hist", NH), ("numeric", NN)]
     if ctx.only_case is not None:
         kind = ["route", "hist", "numeric"][ctx.only_case % 3]
